@@ -368,8 +368,13 @@ def r3_diagnostics(ctx, prog):
     if b is not None:
         cf = M.call_blocks(b, r"plurals::Plurals::check_forms$")
         aggs = M.agg_blocks(b, "plurals::Plurals", "Plurals")
-        if cf and aggs and all(any(b.dominates(a, c) for a in aggs) for c in cf):
-            r.inst("merge_plurals#check_forms", "every merged plural is passed to check_forms")
+        ins = [i for i in M.call_blocks(b, r"::insert$") if any(b.dominates(a, i) for a in aggs)]
+        skip = [a for a in aggs if ins and b.paths_avoiding(a, ins, cf)]
+        if cf and aggs and ins and skip:
+            r.viol("R3:merge_plurals#check_forms-skipped", "a merged plural can reach the key map without passing through Plurals::check_forms (a path from the Plurals value to `insert` "
+                   "avoids the call): its unused forms are not reported", file=b.file, line=b.blocks[skip[0]]["term"].get("line") or b.line)
+        elif cf and aggs and ins and all(any(b.dominates(a, c) for a in aggs) for c in cf):
+            r.inst("merge_plurals#check_forms", "every merged plural is passed to check_forms: no path from the Plurals value to the insertion in the key map avoids the call")
         else:
             r.viol("R3:merge_plurals#check_forms", "merged plurals are no longer passed to Plurals::check_forms (UnusedForm would never be reported)", file=b.file, line=b.line)
     fn = ctx.ast.fn(PP, "check_forms")
@@ -550,6 +555,10 @@ def run(ctx):
         gentext.check_locale_arms(ctx, r7, rid="R7")
     except _absint.Unknown as u:
         r7.viol("R7:undecided", "the per-locale generators cannot be interpreted on the current code (%s): not decided on this tree (fail closed)" % str(u)[:300])
+    # ... and the provider builds them from the locale and rule type it is given (MIR return summary, shared with C18.R3)
+    n_ = c18.provider_ctors(ctx, prog, r6, "R6", {"try_new_plural_rules": c18.PROVIDER_CTORS["try_new_plural_rules"]})
+    if n_:
+        r6.inst("BakedDataProvider::try_new_plural_rules", "PluralRules::try_new(locale, rule_type) on the method's own parameters; the custom-provider impl delegates unchanged")
     r3 = r3_diagnostics(ctx, prog)
     # `every unused form is reported`: the collector keeps each warning it is handed (rules/c07.py, shared with C07.R4)
     from rules import c07
